@@ -111,3 +111,52 @@ pub proof fn lemma_c19_next_page(p: Map<Seq<u8>, PairInfoRaw>, i: int, last: Pai
     let s = choose|s: int| #![trigger split_at(all, lo, s)] split_at(all, lo, s) && out.len() == page_len(all.len() as int, s, n) && (forall|t: int| 0 <= t < out.len() ==> normal_of(p[all[s + t]], #[trigger] out[t]));
     lemma_split_unique(all, lo, s, i);
 }
+// ---- the key-level hypothesis no_ext01 follows from an identifier-level one ----
+// a native denom has no byte <= 0x01 (bank denoms are [a-zA-Z][a-zA-Z0-9/:._-]{2,127}); canonical token addresses registered here have one common length
+pub open spec fn id_clean(a: AssetInfoRaw) -> bool { raw_native(a) ==> forall|i: int| 0 <= i < raw_bytes(a).len() ==> raw_bytes(a)[i] > 1 }
+pub open spec fn ids_clean(p: Map<Seq<u8>, PairInfoRaw>, addr_len: nat) -> bool {
+    forall|k: Seq<u8>| #[trigger] p.dom().contains(k) ==> ({ let r = p[k];
+        id_clean(r.asset_infos[0]) && id_clean(r.asset_infos[1]) && raw_bytes(r.asset_infos[0]).len() <= u64::MAX && raw_bytes(r.asset_infos[1]).len() <= u64::MAX
+        && (!raw_native(r.asset_infos[0]) ==> raw_bytes(r.asset_infos[0]).len() == addr_len) && (!raw_native(r.asset_infos[1]) ==> raw_bytes(r.asset_infos[1]).len() == addr_len) })
+}
+pub proof fn lemma_key_of_no_ext01(l1: AssetInfoRaw, h1: AssetInfoRaw, l2: AssetInfoRaw, h2: AssetInfoRaw, addr_len: nat)
+    requires raw_bytes(l1).len() <= u64::MAX, raw_bytes(l2).len() <= u64::MAX, id_clean(h2),
+        !raw_native(h1) ==> raw_bytes(h1).len() == addr_len, !raw_native(h2) ==> raw_bytes(h2).len() == addr_len,
+    ensures !ext01(key_of(l1, h1), key_of(l2, h2))
+{
+    broadcast use axiom_be8;
+    let k1 = key_of(l1, h1); let k2 = key_of(l2, h2);
+    let n1 = raw_bytes(l1).len(); let n2 = raw_bytes(l2).len();
+    if ext01(k1, k2) {
+        let pre = k2.subrange(0, k1.len() as int);
+        assert(pre == k1);
+        assert(k1[0] == tag_of(l1) && k2[0] == tag_of(l2) && pre[0] == k2[0]);
+        assert(k1.subrange(1, 9) =~= be8(n1 as u64));
+        assert(k2.subrange(1, 9) =~= be8(n2 as u64));
+        assert(pre.subrange(1, 9) =~= k2.subrange(1, 9));
+        assert(n1 as u64 == n2 as u64);
+        assert(n1 == n2);
+        assert(k1[9 + n1 as int] == tag_of(h1) && k2[9 + n2 as int] == tag_of(h2) && pre[9 + n1 as int] == k2[9 + n1 as int]);
+        assert(tag_of(h1) == tag_of(h2));
+        let m1 = raw_bytes(h1).len(); let m2 = raw_bytes(h2).len();
+        assert(k1.len() == 10 + n1 + m1 && k2.len() == 10 + n2 + m2);
+        assert(m2 > m1);
+        // the byte that continues k1 is byte m1 of the second identifier of k2
+        assert(k2[k1.len() as int] == raw_bytes(h2)[m1 as int]);
+        if raw_native(h2) { assert(raw_bytes(h2)[m1 as int] > 1); } else { assert(m1 == addr_len && m2 == addr_len); }
+    }
+}
+pub proof fn lemma_no_ext01_from_ids(p: Map<Seq<u8>, PairInfoRaw>, addr_len: nat)
+    requires registry_wf(p), ids_clean(p, addr_len)
+    ensures /*[C19 walk.clean-identifiers-give-no-ext01]*/ no_ext01(sorted_keys(p))
+{
+    broadcast use axiom_sorted_keys;
+    let all = sorted_keys(p);
+    assert forall|i: int, j: int| 0 <= i < all.len() && 0 <= j < all.len() implies !ext01(#[trigger] all[i], #[trigger] all[j]) by {
+        assert(all.contains(all[i]) && all.contains(all[j]));
+        let a = p[all[i]]; let b = p[all[j]];
+        let (l1, h1) = if key_order(a.asset_infos[1], a.asset_infos[0]) is Less { (a.asset_infos[1], a.asset_infos[0]) } else { (a.asset_infos[0], a.asset_infos[1]) };
+        let (l2, h2) = if key_order(b.asset_infos[1], b.asset_infos[0]) is Less { (b.asset_infos[1], b.asset_infos[0]) } else { (b.asset_infos[0], b.asset_infos[1]) };
+        lemma_key_of_no_ext01(l1, h1, l2, h2, addr_len);
+    }
+}
